@@ -500,6 +500,45 @@ pub fn run(tier: Tier) -> i32 {
         CaseResult { case_hash: hash64(&doc), nontrivial: viol.is_none(), outcome_hash: distinct.iter().next().copied().unwrap_or(0), executions: reps as u64, violation: viol }
     });
     rep.absorb("command", st);
+    // ... and so is what it says when its environment fails it (same input, same configuration, same fault)
+    let env_faults: Vec<(&str, Vec<&str>, Option<(&str, &str)>)> = vec![
+        ("tmpdir-missing", vec!["-o", "/verif/target/c06-env-out.svg"], Some(("TMPDIR", "/nonexistent-verif-dir"))),
+        ("output-parent-missing", vec!["-o", "/nonexistent-verif-dir/out.svg"], None),
+        ("input-missing", vec!["/nonexistent-verif-dir/in.xml"], None),
+    ];
+    let st = run_space(env_faults.len(), |i| {
+        let (name, args, envv) = &env_faults[i];
+        let mut outs: Vec<(Option<i32>, Vec<u8>, Vec<u8>)> = Vec::new();
+        for _ in 0..reps {
+            let mut cmd = std::process::Command::new(crate::props::c01::SVGDX_BIN);
+            cmd.args(args).stdin(std::process::Stdio::piped()).stdout(std::process::Stdio::piped()).stderr(std::process::Stdio::piped());
+            if let Some((k, v)) = envv {
+                cmd.env(k, v);
+            }
+            let Ok(mut child) = cmd.spawn() else { continue };
+            if let Some(mut si) = child.stdin.take() {
+                use std::io::Write;
+                let _ = si.write_all(b"<svg><rect wh=\"5\"/></svg>");
+            }
+            if let Ok(o) = child.wait_with_output() {
+                outs.push((o.status.code(), o.stdout, o.stderr));
+            }
+        }
+        let _ = std::fs::remove_file("/verif/target/c06-env-out.svg");
+        let distinct: std::collections::HashSet<u64> = outs.iter().map(hash64).collect();
+        let viol = if outs.len() == reps && distinct.len() == 1 {
+            None
+        } else {
+            Some(Violation {
+                clause: "command-output-differs-between-runs".into(),
+                signature: format!("C06/command-env/{name}"),
+                case: json!({"leg": "command-env", "fault": name}),
+                detail: format!("{} runs of svgdx {:?} ({:?}) gave {} different (status, stdout, stderr) results; e.g. stderr {:?} vs {:?}", outs.len(), args, envv, distinct.len(), outs.first().map(|o| clip(&String::from_utf8_lossy(&o.2), 200)), outs.iter().find(|o| Some(hash64(*o)) != outs.first().map(hash64)).map(|o| clip(&String::from_utf8_lossy(&o.2), 200))),
+            })
+        };
+        CaseResult { case_hash: hash64(name), nontrivial: viol.is_none(), outcome_hash: distinct.iter().next().copied().unwrap_or(0), executions: reps as u64, violation: viol }
+    });
+    rep.absorb("command-env", st);
 
     rep.assume("hash iteration order reaches the output only through the hooked site in themes.rs append_pattern_styles; any other site is covered only by the repetition legs (sampling of hash seeds, labelled as such)");
     rep.assume("use_local_styles=false throughout (the randomised root id is the permitted exception)");
